@@ -170,6 +170,7 @@ def build(tier, repo):
     r1 = chk.rule("C04-R1", "'optimal' of cpl dominated by the stop test on the reported quantities; residuals normalised by their own normalisers",
                   "stationarity/primal residual within feastol relative to the documented normalisers; gap criterion")
     tm.check_optimal(r1, w, "cvxprog", "cpl", None)
+    tm.check_relgap(r1, w, "cvxprog", "cpl")
     check_normalisers(r1, w)
     r1.require(7)
     r2 = chk.rule("C04-R2", "loop bound", "iterations <= maxiters")
